@@ -291,7 +291,6 @@ func (p *Pkg) severityDomain(name string) []string {
 	return out
 }
 
-
 // codeWeights tabulates the code's weight helpers: "C" -> value -> weight, "PR|S" -> "L|C" -> weight.
 func (p *Pkg) codeWeights(ctx *symCtx) map[string]map[string]*big.Rat {
 	weights := map[string]map[string]*big.Rat{}
